@@ -13,7 +13,6 @@ using namespace ace_time;
 Print VerifSerial;
 extern "C" unsigned long millis() { return 0; }
 // hook H1 (guarded, in /repo): attempts to add a transition beyond BasicZoneProcessor's cache capacity
-long ace_time_verif_basic_dropped = 0;
 #ifdef ACE_TIME_VERIF_HAS_H1
 static const int kHasH1 = 1;
 #else
